@@ -198,6 +198,36 @@ def eval_case(ctx: Ctx, c: dict):
         if r != f"ok {enc_labels(labels)} {len(w)}":
             ctx.fail("C01/wire-roundtrip/value-differs", f"from_wire(to_wire({labels!r})) -> {r}", rep)
         ctx.count("wire.roundtrip")
+    elif k == "wireo":
+        labels = [bytes.fromhex(x) for x in c["labels"]]
+        origin = None if c["origin"] is None else [bytes.fromhex(x) for x in c["origin"]]
+        canon = bool(c["canon"])
+        n = dns.name.Name(labels)
+        o = None if origin is None else dns.name.Name(origin)
+        r, v = outcome(lambda: n.to_wire(origin=o, canonicalize=canon), hx)
+        ctx.corr(f"n.towireo {enc_labels(labels)} {'none' if origin is None else enc_labels(origin)} {int(canon)}", r, c)
+        ctx.count("wireo." + (r.split(" ")[0] if r.startswith("ok") else r.split(" ")[1]) + (".canon" if canon else ""))
+        if r.startswith("FOREIGN"):
+            ctx.fail("C01/to_wire-origin/foreign-exception:" + r.split(" ")[1], f"to_wire({labels!r}, origin={origin!r}) -> {r}", rep)
+        elif v is not None:
+            full = labels if n.is_absolute() else labels + (origin or [])
+            if len(v) > 255:
+                ctx.fail("C01/to_wire-origin/closure", f"to_wire({labels!r}, origin={origin!r}) produced {len(v)} octets", rep)
+            else:
+                want = [l.lower() for l in full] if canon else full
+                got = ref_decode(v, 0)
+                if got != want:
+                    ctx.fail("C01/to_wire-origin/value-differs",
+                             f"to_wire({labels!r}, origin={origin!r}, canonicalize={canon}) decodes to {got!r}, expected {want!r}", rep)
+                # the bytes-returning and the file-writing path must agree
+                f = io.BytesIO()
+                r2, _ = outcome(lambda: n.to_wire(f, None, o, canon), lambda x: "")
+                if r2.startswith("ok") and f.getvalue() != v:
+                    ctx.fail("C01/to_wire-origin/paths-differ", f"to_wire({labels!r}, origin={origin!r}): file path wrote {f.getvalue().hex()}, bytes path returned {v.hex()}", rep)
+                if canon:
+                    r3, v3 = outcome(lambda: n.to_digestable(o), hx)
+                    if r3 != r:
+                        ctx.fail("C01/to_digestable/differs-from-canonical-to_wire", f"to_digestable({labels!r},{origin!r}) -> {r3} vs {r}", rep)
     elif k == "fromwire":
         buf = bytes.fromhex(c["wire"])
         off = c["off"]
@@ -387,6 +417,14 @@ def generate(ctx: Ctx, scale: int, rng):
         ls = gen_labels(rng, absolute=True)
         c = {"kind": "wire", "labels": hexl(ls), "pre": rng.bytes(rng.below(5)).hex(), "post": rng.bytes(rng.below(4)).hex()}
         ctx.case(("wire", tuple(ls)), sample=c)
+        eval_case(ctx, c)
+    for _ in range(n(1200)):
+        ls = gen_labels(rng, absolute=rng.chance(1, 4), budget=rng.choice([60, 200, 255]))
+        origin = None if rng.chance(1, 8) else gen_labels(rng, absolute=rng.chance(7, 8), budget=rng.choice([20, 60, 255]))
+        if origin is not None and rng.chance(1, 2):
+            origin = [bytes(x).swapcase() if rng.chance(1, 2) else bytes(x).upper() for x in origin]
+        c = {"kind": "wireo", "labels": hexl(ls), "origin": None if origin is None else hexl(origin), "canon": rng.below(2)}
+        ctx.case(("wireo", tuple(ls), None if origin is None else tuple(origin), c["canon"]), sample=c)
         eval_case(ctx, c)
     for _ in range(n(2500)):
         if rng.chance(1, 10):
